@@ -405,8 +405,9 @@ def _leaf_for(prog, body, param_syms, extra=None):
                 if ds(pe)[:2] == ("param", 1) and not pb.is_closure:
                     return ("sym", "N")
         u = unwrap_try(e)
-        if u is not e and isinstance(u, tuple) and u[0] == "call" and (u[2].startswith("deviation::") or u[2].startswith("summary_statistics::")
-                                                                     or u[2].startswith("entropy::") or u[2].startswith("quantile::")):
+        if u != ds(e) and isinstance(u, tuple) and u[0] == "call" and (u[2].startswith("deviation::") or u[2].startswith("summary_statistics::")
+                                                                      or u[2].startswith("entropy::") or u[2].startswith("quantile::")) and \
+                not (u[2] in prog.bodies and u[2] not in prog.exported):
             return ("sym", u[1])
         if isinstance(e, tuple) and e[0] == "cast" and "IntToFloat" in e[1]:
             return None
@@ -446,6 +447,8 @@ def routine_value(prog, root, param_syms=None, extra=None, kernel_cls=None):
             return r
         # a bare call to a sibling routine (not unwrapped with `?`): its success value
         if isinstance(x, tuple) and x[0] == "call" and (x[2].startswith("deviation::") or x[2].startswith("summary_statistics::")):
+            if x[2] in prog.bodies and x[2] not in prog.exported:
+                return None          # a private helper: evaluated in place by the kernel, not a named quantity
             return ("sym", x[1])
         return None
     K = (kernel_cls or Kernel)(prog, tb, leaf)
@@ -701,12 +704,25 @@ def scalar_value(prog, root, names, e=None):
         # Option::map(opt, closure) on scalars / ok_or
         if isinstance(x, tuple) and x[0] == "call" and x[1] == "ok_or" and x[3]:
             return K.term(x[3][0])
-        if isinstance(x, tuple) and x[0] == "call" and x[1] == "map" and len(x[3]) == 2 and "option" in x[2]:
+        if isinstance(x, tuple) and x[0] == "call" and x[1] == "map" and len(x[3]) == 2 and ("option" in x[2] or "result::Result" in x[2]):
             cb, ups = closure_of(prog, x[3][1])
             inner = K.term(x[3][0])
-            ret, _ = closure_terms(prog, cb, {2: inner})
+            def reduction_of_capture(body_, y):
+                # `captured_array.sum()` inside the mapping closure: the same reduction of the captured array in the routine
+                if isinstance(y, tuple) and y[0] == "call" and y[1] in ("sum", "mean", "len") and len(y[3]) == 1:
+                    a0 = ds(y[3][0])
+                    if isinstance(a0, tuple) and a0[0] == "upvar":
+                        return K.term(("call", y[1], y[2], (ups[a0[1]],), y[4]))
+                return None
+            ret, _ = closure_terms(prog, cb, {2: inner}, upvar_leaf=lambda u: K.term(ups[u[1]]), extra=reduction_of_capture)
             return ret
-        return base_leaf(x)
+        r = base_leaf(x)
+        if r is not None:
+            return r
+        # a sibling routine's result used without `?` (mapped instead): its success value
+        if isinstance(x, tuple) and x[0] == "call" and x[2].startswith("summary_statistics::") and not (x[2] in prog.bodies and x[2] not in prog.exported):
+            return ("sym", x[1])
+        return None
     K = Kernel(prog, tb, leaf)
     if e is None:
         ex = tb.exits()
@@ -1004,46 +1020,41 @@ def rule_c07(ctx, prog, rule="R19"):
     for name in ("central_moment", "central_moments"):
         root = S(name)
         tb = prog.tracked(root)
-        sw = [bb for bb in tb.live_blocks() if tb.term(bb)["k"] == "switch" and ds(tb.switch_discr_expr(bb))[:2] == ("param", 2)]
-        ok = False
-        detail = "no match on the order parameter"
-        if sw:
-            bb = sw[0]
-            t = tb.term(bb)
-            from .rules_guard import Routine
-            r = Routine.__new__(Routine)
-            r.prog, r.body = prog, tb
-            got = {}
-            for v, tgt in t["arms"]:
-                vals = []
-                for d in r.first_ret_defs(tgt, bb):
-                    if d in (None, "loop"):
-                        vals.append(None)
-                        continue
-                    e = ds(tb.def_expr(0, d))
-                    inner = e[3][0] if isinstance(e, tuple) and e[0] == "agg" and e[2] == "Ok" else None
-                    if name == "central_moment":
-                        vals.append(inner)
-                    else:
-                        # Ok(vec![...]) – find the literal in the arm
-                        lit = None
-                        for b2 in tb.reachable_from(tgt, avoid=(bb,)):
-                            lv = vec_literal_values(tb, b2)
-                            if lv is not None and tb.dominates(tgt, b2):
-                                lit = lv
-                                break
-                        vals.append(tuple(ds(x) for x in lit) if lit is not None else None)
-                got[v] = vals
+        # decided on the extracted control flow: with order = 0 (resp. 1) every way of returning successfully hands back the exact
+        # constant – however the case split is spelled (match arms, if / else-if with early returns, …)
+        from .rules_result import success_paths_under
 
-            def is_call0(e, nm):
-                return isinstance(e, tuple) and e[0] == "call" and e[1] == nm and not e[3]
-            if name == "central_moment":
-                ok = len(got.get(0, [])) == 1 and is_call0(got[0][0], "one") and len(got.get(1, [])) == 1 and is_call0(got[1][0], "zero")
-            else:
-                v0 = got.get(0, [None])[0]
-                v1 = got.get(1, [None])[0]
-                ok = bool(v0) and len(v0) == 1 and is_call0(v0[0], "one") and bool(v1) and len(v1) == 2 and is_call0(v1[0], "one") and is_call0(v1[1], "zero")
-            detail = "order 0 ⇒ one(), order 1 ⇒ zero() as constants" if ok else "arms give %s" % {k: [fmt(x) if not isinstance(x, tuple) or (x and isinstance(x[0], str)) else [fmt(y) for y in x] for x in v] for k, v in got.items()}
+        def is_call0(e, nm):
+            return isinstance(e, tuple) and e[0] == "call" and e[1] == nm and not e[3]
+        got = {}
+        for k_ in (0, 1):
+            leaf_k = lambda e, k_=k_: k_ if (isinstance(e, tuple) and e[:2] == ("param", 2)) else None
+            vals = []
+            for d, path in success_paths_under(tb, leaf_k):
+                if d is None:
+                    vals.append(None)
+                    continue
+                e = ds(tb.def_expr(0, d))
+                if not (isinstance(e, tuple) and e[0] == "agg" and e[2] == "Ok"):
+                    continue        # error exits (empty input)
+                if name == "central_moment":
+                    vals.append(ds(e[3][0]))
+                else:
+                    lit = None
+                    for b2 in reversed(path):
+                        lv = vec_literal_values(tb, b2)
+                        if lv is not None:
+                            lit = lv
+                            break
+                    vals.append(tuple(ds(x) for x in lit) if lit is not None else None)
+            got[k_] = vals
+        if name == "central_moment":
+            ok = bool(got[0]) and all(is_call0(v, "one") for v in got[0]) and bool(got[1]) and all(is_call0(v, "zero") for v in got[1])
+        else:
+            ok = bool(got[0]) and all(v is not None and len(v) == 1 and is_call0(v[0], "one") for v in got[0]) and \
+                bool(got[1]) and all(v is not None and len(v) == 2 and is_call0(v[0], "one") and is_call0(v[1], "zero") for v in got[1])
+        detail = "order 0 ⇒ one(), order 1 ⇒ zero() as constants (every success path under order = 0 / 1)" if ok else \
+            "with order = 0 / 1 the routine can return %s" % {k: [fmt(x)[:40] if not isinstance(x, tuple) or (x and isinstance(x[0], str)) else [fmt(y)[:30] for y in x] for x in v] for k, v in got.items()}
         ctx.ob("R13", "%s/order-0-1-constant" % name, ok, root.where(), detail, what="order 0/1 not the exact constants")
     # general arm of central_moments starts the vector with [one(), zero()] too
     root = S("central_moments")
@@ -1126,8 +1137,10 @@ def rule_c07(ctx, prog, rule="R19"):
         unrec(ctx, "R13", "weighted_var_axis/lane-kernel", wva.where(), ex)
     # ddof precondition: the assertion lets every ddof in [0, 1] through (C07 quantifies over those; the common 0 and 1 included)
     from .rules_result import rule_guard_table
+    from .facts import inline_calls as _inl
+    _hf = lambda cb: cb.key not in prog.exported and len(cb.blocks) <= 60 and not cb.raw.get("unsafe_fn") and cb.name != "inner_weighted_var"
     for rb_, pi in ((wv, 3), (wva, 4)):
-        rule_guard_table(ctx, prog.tracked(rb_), "%s/ddof-assert" % rb_.name,
+        rule_guard_table(ctx, prog.tracked(_inl(prog, rb_, _hf)), "%s/ddof-assert" % rb_.name,
                          involves=lambda e, pi=pi: isinstance(e, tuple) and e[:2] == ("param", pi),
                          leaf_for=lambda s_, pi=pi: (lambda e: s_ if (isinstance(e, tuple) and e[:2] == ("param", pi)) else None),
                          samples=[-1, 0, 0.5, 1, 2], expect_diverge=lambda s_: False if 0 <= s_ <= 1 else None, describe=lambda s_: "ddof = %s" % s_,
@@ -1818,6 +1831,9 @@ def rule_moments_vector(ctx, prog, rule="R13"):
 
 def _is_iteration_item(prog, pb, pe):
     """pe is the item parameter of a closure that is handed to for_each/map/… of an iteration (`xs.iter().for_each(|&x| …)`)"""
+    for _ in range(4):          # a component of a tuple item: |(result, &q)|
+        if isinstance(pe, tuple) and pe[0] in ("field", "deref") and isinstance(ds(pe[1]), tuple):
+            pe = ds(pe[1])
     if not (pb.is_closure and isinstance(pe, tuple) and pe[0] == "param" and pe[1] >= 2):
         return False
     site = prog.closure_site(pb.key)
@@ -1826,7 +1842,8 @@ def _is_iteration_item(prog, pb, pe):
     ob_, obb, osi, _ups = site
     # the call that consumes the closure value
     for cbb, t in ob_.calls():
-        if callee_name(t) not in ("for_each", "try_for_each", "map", "fold", "try_fold", "all", "any", "find"):
+        if callee_name(t) not in ("for_each", "try_for_each", "map", "fold", "try_fold", "all", "any", "find", "flat_map", "filter_map", "filter",
+                                  "find_map", "map_while", "inspect", "scan"):
             continue
         for a in ob_.call_arg_exprs(cbb)[1:]:
             a = ds(a)
@@ -2049,6 +2066,48 @@ def rule_c18_quantiles(ctx, prog, rule="R13"):
             return out
         s_collect, s_lookup = sig(inner, exclude=c.key), sig(c)
         ok = s_collect == s_lookup and len(s_collect) == 4
+        # … and each computed neighbour position really flows into the searched vector: it occurs in what is pushed / extended
+        # (through Some(..), into_iter, chain, the value returned by a flat_map closure, …), not merely computed
+        cgroup = [inner] + [x for x in prog.bodies.values() if x.is_closure and x.key.startswith(inner.key + "::")
+                            and not (x.key == c.key or x.key.startswith(c.key + "::"))]
+        sinks = []
+        for g in cgroup:
+            for bb_, t_ in g.calls():
+                if callee_name(t_) in ("push", "extend", "insert", "append", "extend_from_slice", "push_back"):
+                    sinks.extend(g.call_arg_exprs(bb_)[1:])
+        flowing = set()
+        seen_cl = set()
+        seen_phi = set()
+        work = []
+        for g in cgroup:
+            for bb_, t_ in g.calls():
+                if callee_name(t_) in ("push", "extend", "insert", "append", "extend_from_slice", "push_back"):
+                    work.extend((g, a_) for a_ in g.call_arg_exprs(bb_)[1:])
+        while work:
+            g_, e_ = work.pop()
+            for x in walk(e_):
+                if not isinstance(x, tuple):
+                    continue
+                if x[0] == "call" and x[1] in ("lower_index", "higher_index"):
+                    flowing.add(x[1])
+                if x[0] == "agg" and x[1] == "closure" and x[2] in prog.bodies and x[2] not in seen_cl:
+                    seen_cl.add(x[2])
+                    work.append((prog.bodies[x[2]], prog.bodies[x[2]].return_expr()))
+                if x[0] == "phi" and (g_.key, x[1]) not in seen_phi:
+                    # a value chosen on several paths (`if needs { Some(pos) } else { None }`): every definition is a candidate
+                    seen_phi.add((g_.key, x[1]))
+                    for d_ in x[3]:
+                        if d_[0] not in ("entry", "partial"):
+                            try:
+                                work.append((g_, g_.def_expr(x[1], d_)))
+                            except Exception:
+                                pass
+        computed = {nm for (nm, _a) in s_collect if nm in ("lower_index", "higher_index")}
+        lost = sorted(computed - flowing)
+        flow_detail = None
+        if ok and lost and sinks:
+            ok = False
+            flow_detail = "the position computed by %s is not part of what is added to the searched index vector" % ", ".join(lost)
         if not ok and not s_lookup and len(s_collect) == 4:
             pv = lane_uses_position_vector(prog, inner, c)
             if pv is not None and pv[0]:
@@ -2056,7 +2115,7 @@ def rule_c18_quantiles(ctx, prog, rule="R13"):
                 s_lookup = s_collect
         ctx.ob(rule, "quantiles_axis_mut/push-lookup-agree", ok, c.where(),
                "indexes are collected and looked up under the same needs_lower/needs_higher(q, axis_len) and lower/higher_index(q, axis_len)" if ok else
-               "collection uses %s, lookup uses %s" % (sorted(s_collect), sorted(s_lookup)), what="bulk quantile looks up an index it did not select")
+               (flow_detail or "collection uses %s, lookup uses %s" % (sorted(s_collect), sorted(s_lookup))), what="bulk quantile looks up an index it did not select")
     else:
         ctx.ob(rule, "quantiles_axis_mut/push-lookup-agree", False, inner.where(), "anchor not recognised: lane closure not found", what="anchor not recognised")
 
@@ -2486,8 +2545,12 @@ def rule_c01_interpolation(ctx, prog, rule="R19"):
     ok = False
     detail = "lane closure not found"
     if len(lane) == 1:
-        c = lane[0]
-        calls = [(bb, t) for bb, t in c.calls() if callee_name(t) == "interpolate"]
+        c0 = lane[0]
+        # the per-q body: the lane closure itself (a `for` loop) or the closure of a for_each over the zipped (result, q) pairs
+        cands = [c0] + [x for x in prog.bodies.values() if x.is_closure and x.key.startswith(c0.key + "::")]
+        holders = [(g, bb, t) for g in cands for bb, t in g.calls() if callee_name(t) == "interpolate"]
+        calls = [(bb, t) for (g, bb, t) in holders]
+        c = holders[0][0] if len(holders) == 1 else c0
         if len(calls) == 1:
             bb, t = calls[0]
             a = [ds(x) for x in c.call_arg_exprs(bb)]
@@ -2499,7 +2562,7 @@ def rule_c01_interpolation(ctx, prog, rule="R19"):
                     pass
                 return found
             qarg, larg = a[2], a[3]
-            q_is_elem = any(isinstance(x, tuple) and x[0] == "call" and x[1] == "next" for x in walk(qarg))
+            q_is_elem = any(isinstance(x, tuple) and x[0] == "call" and x[1] == "next" for x in walk(qarg)) or _is_iteration_item(prog, c, qarg)
             pb, le_ = up(prog, c, larg)
             le_ = ds(le_)
             len_ok = isinstance(le_, tuple) and le_[0] == "call" and le_[1] == "len_of" and ds(le_[3][0])[:2] == ("param", 1) and ds(le_[3][1])[:2] == ("param", 2)
@@ -2508,7 +2571,7 @@ def rule_c01_interpolation(ctx, prog, rule="R19"):
             st_ok = False
             for sbb, si, d in stores:
                 base = ds(c.local_expr(d["l"], sbb, si))
-                if any(isinstance(x, tuple) and x[0] == "call" and x[1] == "next" for x in walk(base)):
+                if any(isinstance(x, tuple) and x[0] == "call" and x[1] == "next" for x in walk(base)) or _is_iteration_item(prog, c, base):
                     st_ok = True
             # lookups use lower_index/higher_index of the same (q, axis_len)
             lk = {}
